@@ -31,7 +31,7 @@ RULE = ('pairs of workloads from {iterative cap-bound, iterative tolerance-bound
 BUDGET = {'quick': 25, 'thorough': 300}
 FLOORS = {
     'quick': {'schedules': 300, 'distinct_interleavings': 100, 'both_parked_mid_evaluation': 100,
-              'points': 5000, 'fresh_thread_ops': 18, 'stress_rounds': 8, 'pair:iter+iter': 20,
+              'points': 5000, 'fresh_thread_ops': 22, 'stress_rounds': 8, 'pair:iter+iter': 20,
               'pair:iter+cse': 10, 'pair:cse+iter': 10, 'pair:cse+cse': 4},
     'thorough': {'schedules': 8000, 'distinct_interleavings': 3000, 'fresh_thread_ops': 400,
                  'stress_rounds': 100, 'pair:cse+cse': 100, 'pair:plain+iter': 50},
@@ -390,7 +390,8 @@ def fresh_ops(ctx):
             target, inp = 'Sheet1!B2', 'Sheet1!A1'
         ref = wb.outcome(wb.compile_mem(spec).evaluate, target)
         for op in ('evaluate', 'evaluate-xlsx', 'set_value', 'trim_graph', 'validate_calcs',
-                   'load-yml', 'load-json', 'load-pkl', 'to_file'):
+                   'load-yml', 'load-json', 'load-pkl', 'to_file', 'evaluate-built-elsewhere',
+                   'set_value-then-evaluate-built-elsewhere'):
             cases.append((iterative, op, spec, target, inp, ref))
     for n, (iterative, op, spec, target, inp, ref) in enumerate(cases):
         if not ctx.mine(n):
@@ -407,12 +408,23 @@ def fresh_ops(ctx):
         elif op == 'evaluate-xlsx':
             wb.write_xlsx(spec, path + '.xlsx', stored)
         else:
+            if op == 'set_value-then-evaluate-built-elsewhere':
+                # the reference: the same write on a model of the main thread (computed first, so that the
+                # model handed to the new thread is the last thing the main thread evaluated)
+                other = wb.compile_mem(spec)
+                wb.outcome(other.evaluate, target)
+                a_ = inp or [c for c in wb.all_addresses(spec) if c != target][0]
+                wb.outcome(other.set_value, a_, 5)
+                ref = wb.outcome(other.evaluate, target)
             comp = wb.compile_mem(spec)
-            if op in ('set_value', 'trim_graph'):
-                wb.outcome(comp.evaluate, target)
+            if op in ('set_value', 'trim_graph') or op.endswith('built-elsewhere'):
+                wb.outcome(comp.evaluate, target)       # cells are built and evaluated on the main thread
 
         def body():
-            if op == 'evaluate':
+            if op in ('evaluate', 'evaluate-built-elsewhere'):
+                return comp.evaluate(target)
+            if op == 'set_value-then-evaluate-built-elsewhere':
+                comp.set_value(inp or [c for c in wb.all_addresses(spec) if c != target][0], 5)
                 return comp.evaluate(target)
             if op == 'evaluate-xlsx':
                 return ExcelCompiler(filename=path + '.xlsx').evaluate(target)
@@ -437,7 +449,7 @@ def fresh_ops(ctx):
         if got[0] == 'x':
             ctx.violation(f'first-call-on-a-fresh-thread-raises/{tag}/{op.split("-")[0]}',
                           f'{op} as the first pycel call of a new thread ({tag} model) raised {got[1]}', case)
-        elif op in ('evaluate', 'evaluate-xlsx') or op.startswith('load-'):
+        elif op in ('evaluate', 'evaluate-xlsx') or op.startswith('load-') or op.endswith('built-elsewhere'):
             if ref[0] == 'v' and not (wb.same(got[1], ref[1]) or (
                     iterative and isinstance(got[1], (int, float)) and abs(got[1] - ref[1]) < 1e-3)):
                 ctx.violation(f'first-call-on-a-fresh-thread-differs/{tag}/{op.split("-")[0]}',
